@@ -59,6 +59,7 @@ def from_emission(j):
         q = [R(Fraction(v, 2)) for v in op["q2"]]
         out.append({"fn": "winterp", "mode": "grid", "x": X, "y": Y, "q": q, "method": "linear"})
         out.append({"fn": "winterp", "mode": "grid", "x": X, "y": Y, "q": q, "qcontainer": "list", "method": "linear", "explicit_method": True})
+        out.append({"fn": "winterp", "mode": "grid", "x": X, "y": Y, "q": q, "method": "linear", "also_n": 2 + len(q) % 5})
         if len(X) >= 4:
             out.append({"fn": "winterp", "mode": "grid", "x": X, "y": Y, "q": q, "method": "cubic"})
             out.append({"fn": "winterp", "mode": "grid", "x": X, "y": Y, "q": q, "method": "constant"})
@@ -234,7 +235,7 @@ def random_cases(family, rng, count):
 
 
 CASE_KEYS = ("fn", "x", "y", "r", "a", "b", "left", "right", "lr", "rr", "start", "stop", "step", "explicit_none", "q", "n", "mode",
-             "qcontainer", "xcontainer", "explicit_method", "x0", "y0", "pre", "c", "normalized", "axis", "other", "lo", "hi", "op", "v", "container", "method", "m", "b", "xoff", "r_kind", "intcoef")   # x0 / y0 / pre are already listed
+             "qcontainer", "xcontainer", "explicit_method", "x0", "y0", "pre", "c", "normalized", "axis", "other", "lo", "hi", "op", "v", "container", "method", "m", "b", "xoff", "r_kind", "intcoef", "also_n")   # x0 / y0 / pre are already listed
 
 
 def case_of_event(ev):
